@@ -23,24 +23,49 @@ def _arr_eval(repo):
     ev.opaque_calls["exprel"] = kin.exprel_call
     orig = ev.test
 
+    def is_count(x, env, ctx):
+        """a number of entries: len(X), X.size, X.shape[0], np.size(X), or a local that holds one of these (whatever it is called)"""
+        if isinstance(x, ast.Call) and isinstance(x.func, ast.Name) and x.func.id == "len":
+            return True
+        if isinstance(x, ast.Call) and isinstance(x.func, ast.Attribute) and x.func.attr in ("size", "count_nonzero") and \
+                isinstance(x.func.value, ast.Name) and x.func.value.id in ("np", "jnp"):
+            return True
+        if isinstance(x, ast.Attribute) and x.attr == "size":
+            return True
+        if isinstance(x, ast.Subscript) and isinstance(x.value, ast.Attribute) and x.value.attr == "shape" and \
+                isinstance(x.slice, ast.Constant) and x.slice.value == 0:
+            return True
+        if isinstance(x, ast.Name):
+            v = env.get(x.id)
+            try:
+                r = rat_of(v) if isinstance(v, PW) else None
+            except Exception:
+                r = None
+            if r is not None:
+                at = r.atoms()
+                return bool(at) and all(a_.startswith("len(") for a_ in at)
+            return x.id.startswith("num_") and v is None
+        return False
+
     def test(t, env, ctx):
-        # emptiness guards `if len(x) > 0:` / `if num_branchpoints > 0:` -- the generic (non-empty) case
-        if isinstance(t, ast.Compare) and len(t.ops) == 1 and isinstance(t.ops[0], ast.Gt) and \
-                isinstance(t.comparators[0], ast.Constant) and t.comparators[0].value == 0:
-            txt = unparse(t.left)
-            if txt.startswith("len(") or txt.startswith("num_"):
+        # emptiness guards -- `if len(x) > 0:`, `if n != 0:`, `if x.size:`, `if len(x) == 0: return <empty result>`, `if not len(x):`
+        # -- are decided for the generic (non-empty) case
+        if isinstance(t, ast.Compare) and len(t.ops) == 1 and isinstance(t.comparators[0], ast.Constant) and is_count(t.left, env, ctx):
+            op, k = t.ops[0], t.comparators[0].value
+            if (isinstance(op, (ast.Gt, ast.NotEq)) and k == 0) or (isinstance(op, ast.GtE) and k == 1):
                 return True
-        # the same guard written the other way round:  `if len(x) == 0: return <empty result>`  /  `if not len(x):`
-        if isinstance(t, ast.Compare) and len(t.ops) == 1 and isinstance(t.ops[0], (ast.Eq, ast.LtE)) and \
-                isinstance(t.comparators[0], ast.Constant) and t.comparators[0].value == 0:
-            txt = unparse(t.left)
-            if txt.startswith("len(") or txt.startswith("num_"):
+            if (isinstance(op, (ast.Eq, ast.LtE)) and k == 0) or (isinstance(op, ast.Lt) and k == 1):
                 return False
-        if isinstance(t, ast.Compare) and len(t.ops) == 1 and isinstance(t.ops[0], ast.Lt) and \
-                isinstance(t.comparators[0], ast.Constant) and t.comparators[0].value == 1 and unparse(t.left).startswith(("len(", "num_")):
+        if isinstance(t, ast.Compare) and len(t.ops) == 1 and isinstance(t.left, ast.Constant) and is_count(t.comparators[0], env, ctx):
+            op, k = t.ops[0], t.left.value
+            if (isinstance(op, (ast.Lt, ast.NotEq)) and k == 0) or (isinstance(op, ast.LtE) and k == 1):
+                return True
+            if (isinstance(op, (ast.Eq, ast.GtE)) and k == 0) or (isinstance(op, ast.Gt) and k == 1):
+                return False
+        if isinstance(t, ast.UnaryOp) and isinstance(t.op, ast.Not) and is_count(t.operand, env, ctx):
             return False
-        if isinstance(t, ast.UnaryOp) and isinstance(t.op, ast.Not) and unparse(t.operand).startswith("len("):
-            return False
+        if is_count(t, env, ctx) and not isinstance(t, ast.Name):
+            return True
         return orig(t, env, ctx)
 
     ev.test = test
@@ -1719,7 +1744,7 @@ def _levels(repo, col, R="R-C01-levels"):
     gs = next((c for c in exs.calls if isinstance(c.func, ast.Name) and c.func.id == "group_and_sum" and c.args), None)
     if gs is not None:
         vt = exs.term(gs.args[0])
-        cat2 = T.find(vt, lambda x: x.op == "mcall" and x.name == "concatenate" and len(x.args) > 1 and x.args[1].op in ("list", "tuple"))
+        cat2 = T.find(vt, lambda x: x.op == "mcall" and x.name in ("concatenate", "hstack") and len(x.args) > 1 and x.args[1].op in ("list", "tuple"))
         if cat2 is not None and len(cat2.args[1].args) == 2:
             def side(t_):
                 ks = {x.args[1].name for x in t_.walk() if x.op == "cmp" and x.name == "==" and len(x.args) == 2 and x.args[1].op == "const"
